@@ -305,6 +305,13 @@ def rand_ro(rng, n_stories=None, meta_layout=None, pool=None, timing='any', ids=
         env['ncs_id'] = rng.choice(pool)
     if rich and rng.random() < 0.2:
         env['extra'] = [rich_blob(rng, 1, pool, 'mosExtra')]
+    if rich:
+        # the running-order element need not be the last child of the envelope
+        r = rng.random()
+        if r < 0.06:
+            env['body_first'] = True
+        elif r < 0.14:
+            env['after'] = [rich_blob(rng, 1, pool, 'mosTrailer')]
     doc = B.ro_doc(ro_id, message_id, entries, slug=rng.choice(pool), ed_start=ed_start,
                    meta_first=first, pretty=pretty, **env)
     return xml_noise(rng, doc) if rich else doc
@@ -564,7 +571,8 @@ def grid_ro(story_ids, layout='none', pretty=False, inter=False, timed=True, ite
                              E('mosPayload', None, E('v', str(k)))))
     if layout in ('after', 'everywhere'):
         entries.append(E('macroOut', 'out'))
-    return B.ro_doc('RO', 1, entries, ed_start='2020-01-01T12:30:00', meta_first=first, pretty=pretty)
+    return B.ro_doc('RO', 1, entries, ed_start='2020-01-01T12:30:00', meta_first=first, pretty=pretty,
+                    bare=(layout == 'bare'))
 
 
 def _k_tuples(pool, kmax):
